@@ -113,7 +113,15 @@ func getProp(id string) *core.Prop {
 }
 
 // runOne executes one run under the panic oracle and returns its record.
+// wireClock puts the library's clock reads (redirected by the instrumenter) on the simulated clock.
+func wireClock() {
+	verifsim.ClockHook = simrt.Now
+	verifsim.SleepHook = simrt.Sleep
+	simrt.ClockReads = &verifsim.ClockReads
+}
+
 func runOne(p *core.Prop, c *core.Ctx) {
+	simrt.ResetClock(c.Rec.Seed)
 	simrt.Steps = 0
 	simrt.Limit = 0
 	c.Steps = &simrt.Steps
@@ -187,6 +195,7 @@ func cmdRun(args []string) {
 	}
 	verifsim.Hook = simrt.Hook
 	verifsim.BlockedHook = simrt.Blocked
+	wireClock()
 	sum := core.Summary{Summary: true, SitesTotal: len(verifsim.Sites)}
 	var hw *bufio.Writer
 	if *hashOut != "" {
@@ -299,6 +308,7 @@ func cmdPlan(args []string) {
 	p := getProp(plan.Property)
 	verifsim.Hook = simrt.Hook
 	verifsim.BlockedHook = simrt.Blocked
+	wireClock()
 	fmt.Fprintf(out, "B 0\n")
 	out.Flush()
 	rec := &core.Record{Seed: plan.Seed, Mode: plan.Mode}
@@ -376,6 +386,7 @@ func cmdEnum(args []string) {
 	}
 	verifsim.Hook = simrt.Hook
 	verifsim.BlockedHook = simrt.Blocked
+	wireClock()
 	sum := core.Summary{Summary: true, SitesTotal: len(verifsim.Sites)}
 	var hw *bufio.Writer
 	if *hashOut != "" {
